@@ -42,6 +42,8 @@ package durablestream
 //@ func (*Store).Append
 //@   props C10 C09
 //@   requires s != nil && ctx != nil && event != nil && s.client != nil
+// every append obtains its writer under the caller's context (a writer keeps the context it was created with)
+//@   ensures [C09.ds.append.ctx] {C09,C10,C13} cnt(writerCall) == 1 && lastarg(writerCall, 1, Iface) == ctx && lastarg(writerCall, 0) == s.client
 //@   ensures [C10.ds.append.send] lastresi(writerCall, 1, Iface) == nil ==> cnt(sendCall) == 1
 //@   ensures [C10.ds.append.fail] lastresi(writerCall, 1, Iface) != nil || (cnt(sendCall) == 1 && lastres(sendCall, Iface) != nil) ==> err != nil && result0 == ""
 //@   at call:(*StreamWriter).SendJSON assert [C10.ds.append.fields] writeEvent.Type == event.Type && writeEvent.Data == event.Data &&
